@@ -143,6 +143,13 @@ def impl(case):
            'cut': battery(A(_cutset(case), _cutidx(case)), case['lag'], case['S'], case['F'], which=['emm']),
            'single': [battery(A([t], [i]), case['lag'], case['S'], case['F'], which=['coring', 'wt', 'paths'])
                       for i, t in enumerate(trajs)] if len(trajs) <= 12 else None}
+    if len(trajs) <= 12:
+        # a set of ONE trajectory against the same trajectory plus its first `lag` frames as a second piece: the extra
+        # piece holds no frame pair and no new label, so the two models are the same (single- and multi-trajectory routes)
+        lag = case['lag']
+        out['single_emm'] = [[battery(A([t], [i]), lag, case['S'], case['F'], which=['emm'])['emm'],
+                              battery(A([t, t[:lag]], [i, i]), lag, case['S'], case['F'], which=['emm'])['emm']]
+                             for i, t in enumerate(trajs) if len(t) >= 1]
     if len({len(t) for t in trajs}) == 1 and len(trajs) >= 2 and len(trajs[0]) >= 1 and not dts:
         # the same set as ONE 2-d array (one row per trajectory): still that many independent pieces
         out['as2d'] = battery(np.array(trajs, dtype=np.int64), case['lag'], case['S'], case['F'], which=['emm'])['emm']
@@ -303,6 +310,10 @@ def judge(case, ibc, answers):
                         merged.setdefault(tuple(k), []).extend(vs)
                 if b['paths'].get('d') != sorted([list(k), vs] for k, vs in merged.items()):
                     P('impl-vs-spec', 'pathway dictionary of the set is not the merge of the per-trajectory dictionaries')
+        for a, b2 in r.get('single_emm') or []:
+            if not _close(a, b2):
+                P('impl-vs-spec', 'the model of ONE trajectory changes when its first lag frames are added as a second trajectory (no pairs, no new labels): %s vs %s' % (
+                    C.short(a, 120), C.short(b2, 120)))
         # model comparison for the set and the cut set
         for tag, ans, rr in (('set', answers[0], b['emm']), ('cut set', answers[1], r['cut']['emm'])):
             model, st, Cm = c01.decode(ans)
